@@ -148,4 +148,31 @@ theorem syncChunks_eq_syncScan (f : Bytes) (pos maxRead : Nat) :
   have : bnd none f[pos]? (pos - 1) = [] := rfl
   simp [this]
 
+/-- the fuel of `skipId3` is not used up: every tag skipped moves the position by at least 11, so any two fuels above
+`f.length − pos` give the same position -/
+theorem skipId3_fuel (f : Bytes) : ∀ (fuel pos fuel' : Nat), f.length < pos + fuel → f.length < pos + fuel' →
+    skipId3 f fuel pos = skipId3 f fuel' pos := by
+  intro fuel
+  induction fuel with
+  | zero =>
+    intro pos fuel' h1 h2
+    cases fuel' with
+    | zero => rfl
+    | succ k =>
+      have : readAt f pos 10 = [] := by unfold readAt; rw [List.drop_of_length_le (by omega)]; rfl
+      simp [skipId3, this]
+  | succ n ih =>
+    intro pos fuel' h1 h2
+    cases fuel' with
+    | zero =>
+      have : readAt f pos 10 = [] := by unfold readAt; rw [List.drop_of_length_le (by omega)]; rfl
+      simp [skipId3, this]
+    | succ k =>
+      unfold skipId3
+      simp only []
+      split
+      · rename_i hc
+        exact ih _ _ (by omega) (by omega)
+      · rfl
+
 end Mutagen.Info.Mp3
